@@ -430,10 +430,11 @@ def builders(rep: Report):
             u, v = p - i, q - j
             want = centred(psf, H, W, kH, kW)((ix.ite(u < 0, u + H, u), ix.ite(v < 0, v + W, v)))
             out.append(("entry_is_centred_psf_at_the_periodic_pixel_difference", ix.scal_eq(val.at(ix.Enc([(p, H), (q, W)]), ix.Enc([(i, H), (j, W)])), want)))
+        out.append(("hypotheses_consistent", ctx.valid(SBool(z3.BoolVal(False))) is not True))
         return out
     run_case(rep, P, QB + "_build_bccb_matrix", "dense", setup, post, lib=lib, contracts={Q + "_pad_psf": k_pad},
              loop_rules={(QB + "_build_bccb_matrix", 0): Outer(), (QB + "_build_bccb_matrix", 1): Inner()},
-             clauses=["returns_a_matrix", "shape_is_HW_by_HW", "entry_is_centred_psf_at_the_periodic_pixel_difference"], replay=replay_restore, timeout_s=30,
+             clauses=["returns_a_matrix", "shape_is_HW_by_HW", "entry_is_centred_psf_at_the_periodic_pixel_difference", "hypotheses_consistent"], replay=replay_restore, timeout_s=30,
              model_replay=replay_builder_model("dense"))
 
 
@@ -585,6 +586,8 @@ def sparse_builder(rep: Report):
             c.require("inv.preserve", ix.scal_eq(w, centred(psf, H, W, kH, kW)((a, b))),
                       "the weight is the centred kernel at the periodic difference (i - i', j - j'): circular convolution, not correlation", key="taps.inv.preserve.weight_is_centred_psf_at_pixel_difference")
             c.require("inv.preserve", ix.scal_eq(w, psf.at(u, v)), "the weight is the tap itself", key="taps.inv.preserve.weight_is_the_tap")
+            # the assumptions about the ghost enumeration of the taps (ranges, non-zero weight) do not contradict each other: "false" is not provable here
+            c.require("inv.preserve", c.valid(SBool(z3.BoolVal(False))) is not True, "the hypotheses of the generic (pixel, tap) iteration are consistent", key="taps.inv.preserve.hypotheses_consistent")
 
     class Sparse:
         qv_value = True
@@ -628,13 +631,14 @@ def sparse_builder(rep: Report):
         u, v = wrap2(a + kH // 2, H), wrap2(b + kW // 2, W)
         uu, vv = ix.ite(u < kH, u, 0), ix.ite(v < kW, v, 0)
         (ca, cb) = col(uu, vv)
+        out.append(("hypotheses_consistent", ctx.valid(SBool(z3.BoolVal(False))) is not True))
         out.append(("lemma.every_nonzero_of_the_convolution_matrix_has_its_triple",
                     sor(want == 0, sand(u < kH, v < kW, psf.at(uu, vv) != 0, ca == ip, cb == jp, ix.scal_eq(psf.at(uu, vv), want)))))
         return out
     run_case(rep, P, FN, "sparse", setup, post, lib=lib,
              loop_rules={(FN, "comp", 0): comp_taps, (FN, 0): Outer(), (FN, 1): Mid(), (FN, 2): Taps()},
              clauses=["returns_a_sparse_matrix", "shape_is_HW_by_HW", "built_from_all_triples_as_data_rows_cols",
-                      "lemma.different_taps_of_a_pixel_go_to_different_columns", "lemma.every_nonzero_of_the_convolution_matrix_has_its_triple"],
+                      "lemma.different_taps_of_a_pixel_go_to_different_columns", "lemma.every_nonzero_of_the_convolution_matrix_has_its_triple", "hypotheses_consistent"],
              replay=replay_restore, timeout_s=30, model_replay=replay_builder_model("sparse"))
 
 
